@@ -10,7 +10,7 @@ PROP = "C01"
 
 def body():
     S.store_check(
-        PROP, model_cfgs=["StoreC01.cfg"], gen_cfgs=["StoreGenC01.cfg", "StoreGenC07big.cfg", "StoreGenDup.cfg"], quick_n=700, thorough_n=8000,
+        PROP, model_cfgs=["StoreC01.cfg"], gen_cfgs=["StoreGenC01.cfg", "StoreGenC07big.cfg", "StoreGenDup.cfg", "StoreGenDupR.cfg"], quick_n=700, thorough_n=8000,
         oracle=True,
         kinds_note="bridge", invs=["RootsMirror", "ConsecutiveIdx", "ProofsVerify"],
         assumptions=["besides the fault-free histories of StoreGenC01, blocks whose write fails at a chosen statement and is retried (StoreGenC07big) are replayed: a long-running node meets them between restarts and the roots must still mirror the contract", "contract ground truth: the reference leaf packing / tree in harness/names is cross-checked against the real bridge contract by the C01 contract oracle run (see evidence.contract_oracle)"])
